@@ -79,6 +79,8 @@ def main():
         i = args.index("--tier"); tier = args[i + 1]; del args[i:i + 2]
     if "--race" in args:
         args.remove("--race"); RACE.append("-race")
+    while "--goarch" in args:  # the demonstration only fails on that target (e.g. 386: alignment of 64-bit atomics)
+        i = args.index("--goarch"); ENV["GOARCH"] = args[i + 1]; del args[i:i + 2]
     while "--props" in args:
         i = args.index("--props"); props = args[i + 1].split(","); del args[i:i + 2]
     prop, src, name = args[0], os.path.abspath(args[1]), args[2]
@@ -99,7 +101,7 @@ def main():
             print(json.dumps(meta, indent=1)); return 2
         files = subprocess.check_output(["git", "-C", wt, "diff", "--name-only"], text=True).split()
         meta["files"] = files
-        rc, out = sh(["go", "test", "-vet=off", "-count=1", "./..."], cwd=wt, timeout=900)
+        rc, out = sh(["go", "test", "-vet=off", "-count=1", "./..."], cwd=wt, timeout=900, env={k: v for k, v in ENV.items() if k != "GOARCH"})
         fails = [t for t in re.findall(r"^--- FAIL: (\S+)", out, re.M) if t != "TestJitterTicker"]
         meta["repo_tests_pass_with_patch"] = not fails and "[build failed]" not in out
         meta["repo_tests_failed"] = fails[:5]
@@ -111,7 +113,7 @@ def main():
         meta["checks"] = {}
         for p in props:
             evd = tempfile.mkdtemp(prefix="seedev-", dir="/tmp")
-            env = dict(ENV, VERIF_REPO=wt, VERIF_EVIDENCE_DIR=evd, VERIF_REPLAYS_DIR=os.path.join(evd, "replays"))
+            env = dict({k: v for k, v in ENV.items() if k != "GOARCH"}, VERIF_REPO=wt, VERIF_EVIDENCE_DIR=evd, VERIF_REPLAYS_DIR=os.path.join(evd, "replays"))
             t0 = time.time()
             c = subprocess.run(["/verif/check", p, tier], env=env, capture_output=True, text=True)
             viol = re.findall(r"^VIOLATION .*$", c.stdout, re.M)
